@@ -9,7 +9,7 @@ def make(L, T, spec, tag):
     """spec: ('parse', parts) | ('build', type, name, steps) -> (purl | None, request)"""
     I = L.I
     def ren(parts):
-        return [(p[0], tag + p[1], p[2]) if isinstance(p, tuple) else p for p in parts]
+        return [((p[0], tag + p[1]) + tuple(p[2:])) if isinstance(p, tuple) else p for p in parts]
     if spec[0] == 'parse':
         s, _ = template_bytes(L, ren(spec[1]))
         L.assume_utf8(s)
@@ -98,7 +98,7 @@ def h_triple(L, T, A, B, C):
         a, ra = make(L, T, A, 'a')
         b, rb = make(L, T, B, 'b')
         c, rc = make(L, T, C, 'c')
-        L.expect_native({'op': 'pair', 'T': KINDS[T][1], 'a': ra, 'b': rb}, {})
+        L.expect_native({'op': 'pair', 'T': KINDS[T][1], 'a': ra, 'b': rb, 'c': rc}, {})
         if a is None or b is None or c is None:
             return 'not-all-valid'
         def cmp(x, y):
@@ -177,6 +177,11 @@ def queries(tier):
     if True:
         X = P('pkg:t/', H1, '@', ('hole', 'v', 1))
         qs.append(Query('String triple name⟦1⟧@ver⟦1⟧', h_triple, {'T': 'String', 'A': X, 'B': X, 'C': X}, bound='three PURLs with free one-byte name and version'))
+        # three values whose namespace may be present or absent (structure alphabet): transitivity across the two shapes
+        Z = P('pkg:t/', ('hole', 'h', 3, b'/ab'))
+        qs.append(Query('String triple ⟦3:/ab⟧ (namespace optional)', h_triple, {'T': 'String', 'A': Z, 'B': Z, 'C': Z}, bound='three PURLs pkg:t/⟦3:/ab⟧'))
+        W = P('pkg:npm/', ('hole', 'h', 3, b'/ab'), '@', ('hole', 'v', 1, b'12'))
+        qs.append(Query('Purl triple ⟦3:/ab⟧@⟦1:12⟧', h_triple, {'T': 'Purl', 'A': W, 'B': W, 'C': W}, bound='three typed PURLs pkg:npm/⟦3:/ab⟧@⟦1:12⟧'))
         Y = P('pkg:npm/n?', H1, '=', ('hole', 'v', 1))
         qs.append(Query('Purl triple key⟦1⟧=value⟦1⟧', h_triple, {'T': 'Purl', 'A': Y, 'B': Y, 'C': Y}, bound='three typed PURLs with free one-byte key and value'))
     return qs
@@ -197,6 +202,10 @@ def confirm(v, resp):
         return 'equal PURLs with different hashes'
     if resp['cmp_ab'] != -resp['cmp_ba'] or (resp['cmp_ab'] == 0) != resp['eq'] or resp['pcmp_ab'] != resp['cmp_ab']:
         return 'ordering inconsistent: cmp_ab=%s cmp_ba=%s eq=%s partial=%s' % (resp['cmp_ab'], resp['cmp_ba'], resp['eq'], resp['pcmp_ab'])
+    if 'cmp_bc' in resp:
+        ab, bc, ac = resp['cmp_ab'], resp['cmp_bc'], resp['cmp_ac']
+        if ab <= 0 and bc <= 0 and (ac > 0 or (ac == 0 and not (ab == 0 and bc == 0))):
+            return 'ordering is not transitive: cmp(a,b)=%d, cmp(b,c)=%d but cmp(a,c)=%d' % (ab, bc, ac)
     return None
 
 
